@@ -74,6 +74,13 @@ func verifStubRename(from, to string) error {
 	return nil
 }
 
+// replaces os.Remove: a clean-up may remove files; removing the current offsets file is never right
+func verifStubRemove(name string) error {
+	verifTrace = append(verifTrace, verifOp{op: "remove", ok: true, name: name})
+	vf.Assert(name != "offsets.yaml", "current-offsets-file-is-never-removed")
+	return nil
+}
+
 func verifJob(id pipeline.SourceID, name string, inode uint64) *Job {
 	return &Job{sourceID: id, filename: name, inode: inodeID(inode), mu: &sync.Mutex{}}
 }
